@@ -381,3 +381,9 @@ ob(name='run_actions.decision_logic.contract', kind='FC', props=['C01', 'C03', '
    post_tags={1: ['C01', 'C07', 'C15'], 2: ['C01', 'C05', 'C15'], 3: ['C01', 'C03'], 4: ['C05'], 5: ['C16'], 6: ['C14'], 7: ['C03', 'C05', 'C06'], 8: ['C03'], 9: ['C08']},
    allow_nobody=['vs_', 'vpx_'], bound='none: every state of an active expectation (free bounds and count), rings of any length in 6 alias shapes; the sequence handler\'s virtual calls are contract-only stubs')
 LEVELS['C01'] = 'proof'; LEVELS['C07'] = 'proof'
+
+# thorough-only: mock_func with expectations in two sequences (concrete K), larger text shapes
+ob(name='world.call.mock_func.two_sequences', kind='BL', props=['C01', 'C02', 'C03', 'C05', 'C07', 'C08', 'C14', 'C15', 'C16', 'C17'], unit='world_ii', harness='h_world.c', entry='w_call', tier='thorough',
+   variants=world_variants(2, 2, True), unwind=10, timeout=2400, bound=_BOUND % 'N=2 expectations, expectation 0 in both sequences, expectation 1 in 0..2', min_reach=0)
+ob(name='world.text.no_match_listing.three', kind='BL', props=['C15', 'C04'], unit='world_ii', harness='h_world.c', entry='w_nomatch_text', tier='thorough',
+   variants=_text_variants(3, 26), unwind=26, timeout=3600, min_reach=0, bound=_BOUND % 'N=3 expectations, two WITH clauses each; message = token log of capacity 24')
